@@ -73,6 +73,33 @@ type docCfg struct {
 	AltLevel string            `json:"alt_level,omitempty"`
 	AltOv    map[string]string `json:"alt_override,omitempty"`
 	UseAlt   bool              `json:"use_alt,omitempty"`
+	// BadKind (Kind 3): which error branch of GetVerificationLevel the edit after construction reaches:
+	// 0 unknown level name (OCI) / empty level (blob), 1 empty level, 2 unknown level name, 3 skip level with an
+	// override, 4 override of an unknown type, 5 override with an unknown action, 6 integrity overridden,
+	// 7 authenticity skipped
+	BadKind int `json:"bad_kind,omitempty"`
+}
+
+func invalidateLevel(sv *trustpolicy.SignatureVerification, kind int, dflt string) {
+	switch kind {
+	case 0:
+		sv.VerificationLevel = dflt
+	case 1:
+		sv.VerificationLevel = ""
+	case 2:
+		sv.VerificationLevel = "no such level"
+	case 3:
+		sv.VerificationLevel = "skip"
+		sv.Override = map[trustpolicy.ValidationType]trustpolicy.ValidationAction{trustpolicy.TypeRevocation: trustpolicy.ActionLog}
+	case 4:
+		sv.Override = map[trustpolicy.ValidationType]trustpolicy.ValidationAction{"nosuchtype": trustpolicy.ActionLog}
+	case 5:
+		sv.Override = map[trustpolicy.ValidationType]trustpolicy.ValidationAction{trustpolicy.TypeRevocation: "nosuchaction"}
+	case 6:
+		sv.Override = map[trustpolicy.ValidationType]trustpolicy.ValidationAction{trustpolicy.TypeIntegrity: trustpolicy.ActionLog}
+	case 7:
+		sv.Override = map[trustpolicy.ValidationType]trustpolicy.ValidationAction{trustpolicy.TypeAuthenticity: trustpolicy.ActionSkip}
+	}
 }
 
 type pmCfg struct {
@@ -864,7 +891,7 @@ func (e *env) scriptRev(rs *RevScript, sc scCfg) {
 	case 7:
 		results = []*revresult.CertRevocationResult{}
 	case 8:
-		// passes checkRevocationResults; revocationFinalResult dereferences every server result
+		// passes checkRevocationResults; before fix a146158 revocationFinalResult dereferenced every server result
 		results[len(results)-1] = &revresult.CertRevocationResult{Result: revresult.ResultOK,
 			ServerResults: []*revresult.ServerResult{{Result: revresult.ResultOK}, nil}}
 	}
@@ -1016,10 +1043,10 @@ func (e *env) build(c *lcase, sc scCfg) (v libVerifier, pt *parts, err error) {
 	}
 	// the caller edits the document it handed over, after the constructor validated it
 	if c.OCI.Kind == 3 {
-		opts.OCITrustPolicy.TrustPolicies[0].SignatureVerification.VerificationLevel = "no such level"
+		invalidateLevel(&opts.OCITrustPolicy.TrustPolicies[0].SignatureVerification, c.OCI.BadKind, "no such level")
 	}
 	if c.Blob.Kind == 3 {
-		opts.BlobTrustPolicy.TrustPolicies[0].SignatureVerification.VerificationLevel = ""
+		invalidateLevel(&opts.BlobTrustPolicy.TrustPolicies[0].SignatureVerification, c.Blob.BadKind, "")
 	}
 	return vv, pt, nil
 }
@@ -1305,7 +1332,7 @@ func run(a *Args) error {
 	w := NewCaseWriter(a, "C12", prelude, "case", "run")
 	w.Rule = "PART 1 (correspondence, evaluated in Coq): the nil-ability lattice run on the real code under recover. Families: lattice = every construction {OCI-only, blob-only, both} x {no applicable statement, strict, permissive, audit, skip, two custom levels} x plugin manager {nil, plugin missing, installed} x entry point {verifier.Verify, VerifyBlob, SkipVerify, notation.Verify, notation.VerifyBlob} x signature {verifies, corrupted, empty, untrusted, plugin demanded, payload not a descriptor}; single = every single deviation from the all-good scenario x level x entry; scen = random scenarios (plugin header states, manager/metadata/capability/response states including the contract violations (nil,nil), native failures, revocation answers including malformed vectors, payload/metadata/descriptor variants, both envelope formats); loop = notation.Verify with nil/custom/library verifier, nil repository, attempt limits <=0..5, reference/resolve/listing failures and lists of 0..4 signatures; blob = notation.VerifyBlob guards x implementations; construct = constructor refusals; usermeta = UserMetadata on hand-made outcomes; corpus = the two fixed panics (00e9a29, 87f7f59) and corpus/C12/*.json; refuted = the witnesses of C12_failure_outcome_notation_refuted; registry = the real registry client (FetchSignatureBlob / ListSignatures) over a scripted oras.GraphTarget that logs the declared size of every descriptor handed to Fetch: manifest kind x content shape x number of blobs x declared sizes (negative, 0, at / above the caps, 2^62, MaxInt64, real +-1) x digests x media types, listings with one deviating referrer at every position (evaluated against C12_Registry: requests and result; oracle = no request above its cap). Every outcome returned is also asked for UserMetadata(). non-trivial = a nil-able field is nil, a guard or early return is taken, or a validation fails; distinct = distinct case descriptions. PART 2 (exploration, Go side only, NOT part of the theorem): see exploration_* keys"
 	w.Assumptions = []string{
-		"contracts of injected components (wf): a caller-supplied Verifier / BlobVerifier returns an error-free outcome when it returns no error; the revocation validator puts no nil entry among the ServerResults of a result (revocationFinalResult dereferences each; checkRevocationResults does not look at them - found by the GoLite translation). Since the fixes d78db00 and 686cc56 there is no contract on the SHAPE of the revocation result vector or on the verification plugin: result vectors of the wrong shape and (nil, nil) answers to get-plugin-metadata / verify-signature are ordinary inputs. Cases violating them are still run and must agree with the model (which predicts the panic); only the property oracle is not applied to them",
+		"contracts of injected components (wf): a caller-supplied Verifier / BlobVerifier returns an error-free outcome when it returns no error (since the fixes d78db00, a146158 and 686cc56 there is no contract on the revocation validator or on the verification plugin: result vectors of the wrong shape, nil entries among the server results of a result, and (nil, nil) answers to get-plugin-metadata / verify-signature are ordinary inputs). Cases violating them are still run and must agree with the model (which predicts the panic); only the property oracle is not applied to them",
 		"a typed-nil pointer wrapped in an interface (verifier, repository, plugin manager, validator) is a caller error outside the lattice",
 		"the trust policy documents are not mutated after the verifier was constructed (GetVerificationLevel cannot fail on a validated statement)",
 		"notation-core-go returns a non-empty certificate chain and a supported signature algorithm for an envelope it verified",
